@@ -7,16 +7,27 @@ correspond:  the real writers (through writers.write) on generated site-informat
              temporary directory; the bytes of every data line against the compiled model's rendering of the same
              inputs (clock-dependent header lines are not compared); every formatted line of the other writers
              against the regenerated layout (`conforms`)
+             gamit_apr_eq apr/eq lines byte for byte against the model's rendering of the regenerated rows;
+             gamit_station_info / gipsyx_site_info lines against the regenerated layouts (no matching parser exists)
 oracle:      the property stated on the real code: the matching parser of the library reads the written file back
-             to the writer's inputs to the printed precision; block markers are balanced; data lines keep their
-             columns; the inputs (site information, dataset, option dictionaries) are deep-equal before and after.
+             to the writer's inputs to the printed precision (Bernese STA: every equipment period has its TYPE 002 line);
+             block markers are balanced; data lines keep their columns; the inputs (site information, dataset, option
+             dictionaries) are deep-equal before and after; a writer is a function of its input: every call is repeated
+             on the same input in the same process and must write the same file, a sample of calls is compared with the
+             file a fresh interpreter writes, station codes are written again from updated site information, and every
+             station of a multi-station dataset (obs.* and flat layout) is written from one dataset object.
 """
 from __future__ import annotations
 
 import contextlib
+import copy
 import io
 import math
+import pickle
+import re
 import shutil
+import subprocess
+import sys
 import tempfile
 import warnings
 from datetime import datetime, timedelta
@@ -106,11 +117,12 @@ PLATES = ["eurasian", "Eurasian", "NORTH AMERICAN", "pacific", "african", "nazca
 ODD_PLATES = ["Somali"]
 
 
-def gen_site_info(rng, n: int) -> Dict[str, Any]:
+def gen_site_info(rng, n: int, keys: Optional[List[str]] = None) -> Dict[str, Any]:
+    """`keys`: generate new site information for these station codes (an *update* of an earlier dictionary)"""
     used: set = set()
     si: Dict[str, Any] = {}
-    for _ in range(n):
-        k = gen_key(rng, used)
+    for i in range(len(keys) if keys is not None else n):
+        k = keys[i] if keys is not None else gen_key(rng, used)
         has_coord = rng.random() > 0.08
         x = gen_coord(rng)
         coord = NS(pos=NS(trs=NS(x=x, y=gen_coord(rng, allow_nan=False), z=gen_coord(rng, allow_nan=False))),
@@ -162,18 +174,112 @@ def stations_arg(si, vel=False) -> str:
 # -------------------------------------------------------------------------------------------------
 
 
+# lines at the top of a written file that carry the wall clock (not compared between two calls)
+CLOCK_LINES = {"bernese_crd": 6, "bernese_vel": 6, "bernese_clu": 5, "bernese_abb": 5, "bernese_sta": 6, "sinex_tms": 1,
+               "csv_": 0, "gamit_apr_eq": 3, "gamit_station_info": 3, "gipsyx_site_info": 0}
+
+FRESH_SRC = """
+import pickle, sys, warnings, io, contextlib
+warnings.simplefilter("ignore")
+sys.path.insert(0, sys.argv[1])
+sys.path.insert(0, sys.argv[4])
+job = pickle.load(open(sys.argv[2], "rb"))
+from midgard import writers
+if job.get("regen"):
+    # datasets are rebuilt from the generator state (Dataset does not survive pickling)
+    import random
+    from harness import c17
+    rng = random.Random()
+    rng.setstate(job["regen"][1])
+    with contextlib.redirect_stdout(io.StringIO()), contextlib.redirect_stderr(io.StringIO()):
+        if job["regen"][0] == "tms":
+            job["inputs"] = {"dset": c17.gen_tms_dataset(rng)[0]}
+        else:
+            d, fields = c17.gen_csv_inputs(rng)[:2]
+            job["inputs"] = {"dset": d, "fields": fields}
+with contextlib.redirect_stdout(io.StringIO()), contextlib.redirect_stderr(io.StringIO()):
+    try:
+        writers.write(job["writer"], **job["inputs"], **job["kw"])
+    except Exception as e:
+        open(sys.argv[3], "w").write("!!" + type(e).__name__)
+"""
+
+
+def same_output(writer: str, a: str, b: str) -> bool:
+    """two files of one writer, the clock-dependent header lines (digits) aside"""
+    k = CLOCK_LINES.get(writer, 0)
+    la, lb = a.splitlines(), b.splitlines()
+    if len(la) != len(lb):
+        return False
+    for i, (x, y) in enumerate(zip(la, lb)):
+        if i < k:
+            x, y = re.sub(r"[0-9]", "#", x), re.sub(r"[0-9]", "#", y)
+        if x != y:
+            return False
+    return True
+
+
 class Run:
     def __init__(self, ctx: Ctx, tmp: Path):
         self.ctx = ctx
         self.tmp = tmp
         self.n = 0
+        self.fresh_per_writer = ctx.budget(2, 12)
+        self.calls: Dict[str, int] = {}
+        self.fresh_done: Dict[str, int] = {}
+        self.regen = None
+
+    def fresh(self, writer: str, inputs: Dict[str, Any], kw: Dict[str, Any], path_key: str) -> Optional[str]:
+        """the same call in an interpreter that has done nothing else (writers are functions of their input)"""
+        out = self.path(writer + "_fresh")
+        job = self.tmp / f"job_{self.n:05d}.pkl"
+        regen = self.regen if "dset" in inputs else None
+        try:
+            with open(job, "wb") as f:
+                pickle.dump({"writer": writer, "inputs": None if regen else inputs, "kw": {**kw, path_key: out}, "regen": regen,
+                             "verif": str(Path(__file__).resolve().parent.parent)}, f)
+        except Exception:
+            return None  # an input that cannot be shipped is not examined this way
+        err = self.tmp / f"job_{self.n:05d}.err"
+        subprocess.run([sys.executable, "-c", FRESH_SRC, str(common.REPO), str(job), str(err), str(Path(__file__).resolve().parent.parent)],
+                       capture_output=True, timeout=120)
+        if err.exists():
+            return err.read_text()
+        try:
+            return out.read_text()
+        except FileNotFoundError:
+            return "!!nofile"
 
     def path(self, name: str) -> Path:
         self.n += 1
         return self.tmp / f"{name}_{self.n:05d}.out"
 
-    def write(self, writer: str, inputs: Dict[str, Any], case: Dict[str, Any], **kw) -> Optional[str]:
-        """call the writer through the library's front door; check the inputs are untouched; returns the text"""
+    def write(self, writer: str, inputs: Dict[str, Any], case: Dict[str, Any], path_key: str = "file_path", **kw) -> Optional[str]:
+        """call the writer through the library's front door; check the inputs are untouched; returns the text.
+        The call is then repeated on the same input in the same process (and, for a sample, in a fresh interpreter):
+        a writer is a function of its input, so every further file must equal the first."""
+        text = self.write_once(writer, inputs, case, path_key, **kw)
+        if text is None or text.startswith("!!"):
+            return text
+        first_path = self.last_path
+        self.ctx.count("repeat-call")
+        again = self.write_once(writer, inputs, case, path_key, **kw)
+        if again is None or not same_output(writer, text, again):
+            self.ctx.violate(f"repeat-differs:{writer}", f"{writer} called twice on the same input in one process wrote two different "
+                             f"files ({'raised ' + again[:80] if again and again.startswith('!!') else 'second differs'})", case)
+        self.calls[writer] = self.calls.get(writer, 0) + 1
+        # a sample of calls of every writer — never the first one of the process — against a fresh interpreter
+        if self.fresh_done.get(writer, 0) < self.fresh_per_writer and self.calls[writer] % 11 == 3:
+            self.fresh_done[writer] = self.fresh_done.get(writer, 0) + 1
+            self.ctx.count(f"fresh-interpreter:{writer}")
+            fr = self.fresh(writer, inputs, kw, path_key)
+            if fr is not None and not same_output(writer, text, fr):
+                self.ctx.violate(f"fresh-differs:{writer}", f"{writer}: the file written in this process (after other writer calls) "
+                                 f"differs from the file a fresh interpreter writes from the same input", case)
+        self.last_path = first_path
+        return text
+
+    def write_once(self, writer: str, inputs: Dict[str, Any], case: Dict[str, Any], path_key: str = "file_path", **kw) -> Optional[str]:
         from midgard import writers
 
         before = c16_canon.digest(inputs)
@@ -181,7 +287,7 @@ class Run:
         fp = self.path(writer)
         try:
             with quiet():
-                writers.write(writer, file_path=fp, **inputs, **kw)
+                writers.write(writer, **{path_key: fp}, **inputs, **kw)
         except Exception as e:
             after = c16_canon.digest(inputs)
             if before != after:
@@ -216,13 +322,19 @@ def near(a: float, b: float, prec: int) -> bool:
 # Bernese CRD / VEL / CLU / ABB
 
 
-def case_crd(run: Run, rng, vel: bool):
+def case_crd(run: Run, rng, vel: bool, si=None):
     ctx = run.ctx
     drv = ctx.driver
     from midgard import parsers
 
-    n = rng.choice([1, 2, 3, 5, 8, 20, 60])
-    si = gen_site_info(rng, n)
+    if si is None:
+        n = rng.choice([1, 2, 3, 5, 8, 20, 60])
+        si = gen_site_info(rng, n)
+        if rng.random() < 0.3:
+            # ... and then updated site information for the same station codes, in the same process
+            case_crd(run, rng, vel, si)
+            ctx.count("updated-site-info")
+            si = gen_site_info(rng, 0, keys=list(si))
     write_nan = rng.random() < 0.4
     writer = "bernese_vel" if vel else "bernese_crd"
     epoch = rng.choice([None, datetime(2010, 1, 1), datetime(2023, 6, 1, 12, 30, 15)])
@@ -304,6 +416,11 @@ def case_clu_abb(run: Run, rng):
 
     n = rng.choice([1, 2, 4, 9, 30, 60])
     si = gen_site_info(rng, n)
+    if rng.random() < 0.3 and getattr(run, "last_keys", None):
+        # updated site information for station codes that were written before in this process
+        ctx.count("updated-site-info")
+        si = gen_site_info(rng, 0, keys=run.last_keys)
+    run.last_keys = list(si)
     case = {"writer": "bernese_clu", "stations": sorted(si)}
     ctx.case(case, nontrivial=True)
     ctx.count("bernese_clu")
@@ -347,12 +464,18 @@ ROWLINE: Dict[str, int] = {}
 # Bernese STA
 
 
-def case_sta(run: Run, rng):
+def case_sta(run: Run, rng, si=None):
     ctx = run.ctx
     drv = ctx.driver
     from midgard import parsers
 
-    si = gen_site_info(rng, rng.choice([1, 2, 5, 12]))
+    if si is None:
+        si = gen_site_info(rng, rng.choice([1, 2, 5, 12]))
+        if rng.random() < 0.5:
+            # the same station codes once more, with updated site information (other equipment periods)
+            case_sta(run, rng, si)
+            ctx.count("updated-site-info")
+            si = gen_site_info(rng, 0, keys=list(si))
     case = {"writer": "bernese_sta", "stations": {k: {"periods": [[str(a), str(b)] for a, b in d["antenna"].history],
                                                        "domes": d["identifier"].domes} for k, d in si.items()}}
     ctx.case(case, nontrivial=True)
@@ -386,6 +509,14 @@ def case_sta(run: Run, rng):
         if set(back) - set(si):
             ctx.violate(f"bernese_sta:readback-stations:{pname}", f"read stations {sorted(set(back) - set(si))} that were not written", case)
             continue
+        # every equipment period handed to the writer has its TYPE 002 line (and there are no others)
+        for k, d in si.items():
+            want = sorted(p[0] for p in d["antenna"].history)
+            got = sorted(e["date_from"] for e in back.get(k, []))
+            if got != want:
+                ctx.violate(f"bernese_sta:readback-periods:{pname}", f"{k}: equipment periods starting {[str(t) for t in want]} were given, "
+                            f"TYPE 002 lines read back start {[str(t) for t in got]}", case)
+                return
         for k, entries in back.items():
             d = si[k]
             for e in entries:
@@ -416,32 +547,50 @@ STA_LINES = [0, 0, 0]
 # SINEX TMS
 
 
+def O(d):
+    """where the observation fields live: the `obs` collection, or the dataset itself (flat layout)"""
+    return d.obs if "obs" in d.fields else d
+
+
 def gen_tms_dataset(rng):
+    """a time-series dataset: 1-3 stations (rows interleaved), fields either in the `obs` collection (the layout the
+    sinex_tms parser produces and the writer works on directly) or flat (the writer converts a deep copy)"""
     from midgard.data import dataset
     from midgard.data.position import Position
 
-    n = rng.choice([1, 2, 3, 7, 30, 120, 400]) if rng.random() < 0.5 else rng.randint(1, 12)
-    sta = "".join(rng.choice(ALNUM[:26]) for _ in range(4))
-    d = dataset.Dataset(num_obs=n)
+    nsta = rng.choice([1, 1, 2, 3])
+    pre = rng.choice(["obs.", "obs.", ""])
+    n1 = rng.choice([1, 2, 3, 7, 30, 120, 400]) if rng.random() < 0.5 else rng.randint(1, 12)
+    n1 = max(1, n1 // nsta)
+    stas = []
+    while len(stas) < nsta:
+        k = "".join(rng.choice(ALNUM[:26]) for _ in range(4))
+        if k not in stas:
+            stas.append(k)
     t0 = datetime(2000 + rng.randint(0, 24), rng.randint(1, 12), rng.randint(1, 28))
-    days = list(range(n))
-    rng.shuffle(days)  # unsorted epochs
-    if n > 2 and rng.random() < 0.15:
-        days[1] = days[0]  # a repeated epoch
-    times = [t0 + timedelta(days=k) for k in days]
-    d.add_time("time", val=times, scale="utc", fmt="datetime")
-    d.add_text("station", val=[sta] * n)
-    base = np.array([gen_coord(rng, allow_nan=False) for _ in range(3)])
+    rows = []
+    for si in range(nsta):
+        days = list(range(n1 if si == 0 else max(1, n1 - rng.randint(0, 2))))
+        rng.shuffle(days)  # unsorted epochs
+        if len(days) > 2 and rng.random() < 0.15:
+            days[1] = days[0]  # a repeated epoch
+        rows += [(si, k) for k in days]
+    rng.shuffle(rows)  # stations interleaved
+    n = len(rows)
+    d = dataset.Dataset(num_obs=n)
+    d.add_time("time", val=[t0 + timedelta(days=k) for _, k in rows], scale="utc", fmt="datetime")
+    d.add_text("station", val=[stas[si] for si, _ in rows])
+    bases = [np.array([gen_coord(rng, allow_nan=False) for _ in range(3)]) for _ in range(nsta)]
     big = rng.random() < 0.15
-    xyz = base[None, :] + np.array([[rng.uniform(-0.05, 0.05) for _ in range(3)] for _ in range(n)])
+    xyz = np.array([bases[si] + np.array([rng.uniform(-0.05, 0.05) for _ in range(3)]) for si, _ in rows])
     if big:
         xyz = np.array([[gen_coord(rng, allow_nan=False) for _ in range(3)] for _ in range(n)])
     xyz = np.clip(xyz, -9_999_999.9999, 9_999_999.9999)
-    d.add_position("obs.site_pos", val=xyz, system="trs")
+    d.add_position(pre + "site_pos", val=xyz, system="trs")
     which = []
     def addf(name, gen, unit="meter"):
         if rng.random() < 0.6:
-            d.add_float(f"obs.{name}", val=np.array([gen() for _ in range(n)]), unit=unit)
+            d.add_float(f"{pre}{name}", val=np.array([gen() for _ in range(n)]), unit=unit)
             which.append(name)
     sig = lambda: rng.choice([float("nan")] + [abs(rng.gauss(0, 0.002))] * 12 + [rng.uniform(0, 9999.9999)])
     corr = lambda: rng.uniform(-1, 1)
@@ -451,10 +600,10 @@ def gen_tms_dataset(rng):
         addf(nm, corr, None)
     has_east = rng.random() < 0.6
     if has_east:
-        ref = Position(val=np.repeat(base[None, :], n, axis=0), system="trs")
+        ref = Position(val=np.array([bases[si] for si, _ in rows]), system="trs")
         scale = rng.choice([0.05, 0.05, 5.0, 99999.0, 999999.0])
         enu = np.array([[rng.uniform(-scale, scale) for _ in range(3)] for _ in range(n)])
-        d.add_position_delta("obs.dsite_pos", val=enu, system="enu", ref_pos=ref)
+        d.add_position_delta(pre + "dsite_pos", val=enu, system="enu", ref_pos=ref)
         for nm in ("dsite_pos_east_sigma", "dsite_pos_north_sigma", "dsite_pos_up_sigma"):
             addf(nm, sig)
         d.meta["ref_epoch"] = "2010-01-01T00:00:00"
@@ -463,13 +612,13 @@ def gen_tms_dataset(rng):
         addf(nm, lambda: float(rng.randint(0, 99999)), None)
     for nm in ("receiver_clock", "trop_zenith_total", "trop_zenith_total_sigma"):
         addf(nm, lambda: rng.uniform(-100, 100))
-    d.meta["station"] = sta.upper()
+    d.meta["station"] = stas[0].upper()
     if rng.random() < 0.5:
         iv = ("2004-02-19T00:00:00", "2021-12-31T00:00:00")
         comps = rng.choice([("x", "y", "z"), ("e", "n", "u")])
         d.meta["vel"] = {"trend": {c: {iv: rng.uniform(-0.05, 0.05)} for c in comps},
                          "trend_sigma": {c: {iv: (i + 1) * 1e-5} for i, c in enumerate(comps)}}
-    return d, sta, has_east
+    return d, stas, has_east
 
 
 # What each TIMESERIES/DATA column *means* (written from the format description, independent of the writer's
@@ -477,19 +626,19 @@ def gen_tms_dataset(rng):
 TMS_MEANING = {
     "YYYY-MM-DD": lambda d, i: d.time.utc.datetime[i].strftime("%Y-%m-%d"),
     "YEAR": lambda d, i: d.time.utc.decimalyear[i],
-    "X": lambda d, i: np.asarray(d.obs.site_pos)[i][0], "Y": lambda d, i: np.asarray(d.obs.site_pos)[i][1],
-    "Z": lambda d, i: np.asarray(d.obs.site_pos)[i][2],
-    "SIG_X": lambda d, i: d.obs.site_pos_x_sigma[i], "SIG_Y": lambda d, i: d.obs.site_pos_y_sigma[i],
-    "SIG_Z": lambda d, i: d.obs.site_pos_z_sigma[i],
-    "CORR_XY": lambda d, i: d.obs.site_pos_xy_correlation[i], "CORR_XZ": lambda d, i: d.obs.site_pos_xz_correlation[i],
-    "CORR_YZ": lambda d, i: d.obs.site_pos_yz_correlation[i],
-    "EAST": lambda d, i: np.asarray(d.obs.dsite_pos)[i][0], "NORTH": lambda d, i: np.asarray(d.obs.dsite_pos)[i][1],
-    "UP": lambda d, i: np.asarray(d.obs.dsite_pos)[i][2],
-    "SIG_E": lambda d, i: d.obs.dsite_pos_east_sigma[i], "SIG_N": lambda d, i: d.obs.dsite_pos_north_sigma[i],
-    "SIG_U": lambda d, i: d.obs.dsite_pos_up_sigma[i],
-    "NOBSC": lambda d, i: d.obs.code_obs_num[i], "NOBSP": lambda d, i: d.obs.phase_obs_num[i],
-    "RCV_CLK": lambda d, i: d.obs.receiver_clock[i], "TROTOT": lambda d, i: d.obs.trop_zenith_total[i],
-    "SIG_TROTOT": lambda d, i: d.obs.trop_zenith_total_sigma[i],
+    "X": lambda d, i: np.asarray(O(d).site_pos)[i][0], "Y": lambda d, i: np.asarray(O(d).site_pos)[i][1],
+    "Z": lambda d, i: np.asarray(O(d).site_pos)[i][2],
+    "SIG_X": lambda d, i: O(d).site_pos_x_sigma[i], "SIG_Y": lambda d, i: O(d).site_pos_y_sigma[i],
+    "SIG_Z": lambda d, i: O(d).site_pos_z_sigma[i],
+    "CORR_XY": lambda d, i: O(d).site_pos_xy_correlation[i], "CORR_XZ": lambda d, i: O(d).site_pos_xz_correlation[i],
+    "CORR_YZ": lambda d, i: O(d).site_pos_yz_correlation[i],
+    "EAST": lambda d, i: np.asarray(O(d).dsite_pos)[i][0], "NORTH": lambda d, i: np.asarray(O(d).dsite_pos)[i][1],
+    "UP": lambda d, i: np.asarray(O(d).dsite_pos)[i][2],
+    "SIG_E": lambda d, i: O(d).dsite_pos_east_sigma[i], "SIG_N": lambda d, i: O(d).dsite_pos_north_sigma[i],
+    "SIG_U": lambda d, i: O(d).dsite_pos_up_sigma[i],
+    "NOBSC": lambda d, i: O(d).code_obs_num[i], "NOBSP": lambda d, i: O(d).phase_obs_num[i],
+    "RCV_CLK": lambda d, i: O(d).receiver_clock[i], "TROTOT": lambda d, i: O(d).trop_zenith_total[i],
+    "SIG_TROTOT": lambda d, i: O(d).trop_zenith_total_sigma[i],
 }
 TMS_PRINTED = {"YEAR": 5, "NOBSC": 0, "NOBSP": 0}  # digits the format description promises (default 4)
 
@@ -497,25 +646,52 @@ TMS_PRINTED = {"YEAR": 5, "NOBSC": 0, "NOBSP": 0}  # digits the format descripti
 def tms_value(dset, field: str, i: int):
     from operator import attrgetter
 
+    if field.startswith("obs.") and "obs" not in dset.fields:
+        field = field[4:]  # flat layout: the writer moves the field into `obs` on its own copy
     return attrgetter(field)(dset)[i]
 
 
 def case_tms(run: Run, rng, dft: List[Tuple[str, str]]):
     ctx = run.ctx
+    run.regen = ("tms", rng.getstate())
+    with quiet():
+        d, stas, has_east = gen_tms_dataset(rng)
+    ctx.count(f"tms-stations:{len(stas)}")
+    ctx.count("tms-layout:" + ("obs" if "obs" in d.fields else "flat"))
+    order = list(stas)
+    rng.shuffle(order)
+    # every station of the dataset is written from the same dataset object, one after the other
+    for sta in order:
+        tms_one_station(run, rng, dft, d, sta, has_east, len(stas))
+
+
+def tms_one_station(run: Run, rng, dft, d, sta, has_east, nsta):
+    ctx = run.ctx
     drv = ctx.driver
     from midgard import parsers
 
-    with quiet():
-        d, sta, has_east = gen_tms_dataset(rng)
-    fields = list(d.fields)
+    raw_fields = list(d.fields)
+    if "obs" in raw_fields:
+        fields = raw_fields
+    else:  # what the writer's own copy looks like after it has moved the plain fields into `obs`
+        keep = ("domes", "flag", "station", "time")
+        fields = ["obs"] + [f"obs.{f}" for f in raw_fields if f not in keep] + [f for f in raw_fields if f in keep]
     cols = drv.ask1("c17 tmscols " + ",".join(fields)).split(",")
-    case = {"writer": "sinex_tms", "num_obs": d.num_obs, "fields": fields, "station": sta,
-            "times": [str(t) for t in d.time.utc.datetime[:6]], "site_pos": np.asarray(d.obs.site_pos)[:3].tolist(),
+    case = {"writer": "sinex_tms", "num_obs": d.num_obs, "fields": raw_fields, "station": sta, "stations": nsta,
+            "times": [str(t) for t in d.time.utc.datetime[:6]], "site_pos": np.asarray(O(d).site_pos)[:3].tolist(),
             "vel": repr(d.meta.get("vel"))[:300]}
     ctx.case(case, nontrivial=True)
     ctx.count("sinex_tms")
     ctx.count(f"tms-epochs<={10 ** len(str(d.num_obs))}")
     inputs = {"dset": d}
+    try:
+        n_sta_rows = int(np.sum(np.asarray(d.filter(station=sta))))
+    except Exception:
+        n_sta_rows = -1
+    if n_sta_rows <= 0:
+        ctx.violate("sinex_tms:station-rows-lost", f"the dataset no longer has rows of station {sta} (it had when it was built): "
+                    f"num_obs is now {d.num_obs}", case)
+        return
     text = run.write("sinex_tms", inputs, case, station=sta, contact="a@b.no", data_agency="NMA", file_agency="NMA",
                      input_="daily solutions", organization="Kartverket", software="verif 1.0", version="001")
     if text.startswith("!!"):
@@ -623,7 +799,7 @@ def case_tms(run: Run, rng, dft: List[Tuple[str, str]]):
                 return
     if "EAST" in cols:
         rc = back.get("ref_coordinate", {})
-        ref = np.asarray(d.obs.dsite_pos.ref_pos)[idx_sta][0]
+        ref = np.asarray(O(d).dsite_pos.ref_pos)[idx_sta][0]
         if not (near(float(rc.get("ref_x", "nan")), ref[0], 4) and near(float(rc.get("ref_y", "nan")), ref[1], 4)
                 and near(float(rc.get("ref_z", "nan")), ref[2], 4) and str(rc.get("system")) == d.meta["ref_frame"]
                 and str(rc.get("site_code")).lower() == sta):
@@ -653,13 +829,211 @@ TMS_REF_LINE = 0
 
 
 # -------------------------------------------------------------------------------------------------
+# GAMIT apr/eq, GAMIT station.info, GipsyX site information (no matching parser in the library: the values are read
+# off the written text; lines are compared with the regenerated layouts / the model's rendering)
+
+
+class SiteCoordList(list):
+    """`site_info[sta]["site_coord"]`: iterable of coordinate entries with a `source_path`"""
+
+    source_path = "/x/itrf2014.snx"
+
+
+class EccHistory(dict):
+    """`site_info[sta]["eccentricity"]` of the GAMIT station.info writer: `.get(date)`"""
+
+
+def gen_gamit_site_info(rng, n: int) -> Dict[str, Any]:
+    used: set = set()
+    si: Dict[str, Any] = {}
+    for _ in range(n):
+        k = gen_key(rng, used)
+        t0 = datetime(1995 + rng.randint(0, 20), rng.randint(1, 12), rng.randint(1, 28), rng.choice([0, 12]), rng.choice([0, 30]), 0)
+        cuts = sorted({t0 + timedelta(days=rng.randint(30, 3000), hours=rng.randint(0, 23)) for _ in range(rng.randint(0, 3))})
+        bounds = [t0] + cuts + [datetime(2099, 12, 31)]
+        periods = list(zip(bounds[:-1], bounds[1:]))
+        scl = SiteCoordList()
+        for (a, b) in periods:
+            small = lambda s: rng.choice([0.0, round(rng.uniform(-s, s), rng.randint(3, 7)), rng.uniform(-s, s)])
+            scl.append(NS(station=k, pos=[gen_coord(rng, allow_nan=False) for _ in range(3)], pos_sigma=[abs(small(0.9)) for _ in range(3)],
+                          vel=[small(0.09) for _ in range(3)], vel_sigma=[abs(small(0.009)) for _ in range(3)],
+                          ref_epoch=rng.choice([None, NS(decimalyear=2010.0), NS(decimalyear=rng.uniform(1995, 2025))]),
+                          system=rng.choice(["ITRF2014", "IGS20"]), source="snx", date_from=a, date_to=b))
+        ants = [NS(type=rng.choice(["TRM57971.00", "LEIAT504GG", "ASH701945D_M"]), serial_number=rng.choice(["1551009151", "CR520020903", "99390"]),
+                   radome_type=rng.choice(["NONE", "TZGD", None]), reference_point=rng.choice(["BAM", "BCR", "BDG", "TOP", "XXX"]),
+                   date_from=a, date_to=b, source="snx") for (a, b) in periods]
+        rcvs = [NS(type=rng.choice(["TRIMBLE NETR9", "LEICA GRX1200GGPRO", "SEPT POLARX5"]), serial_number=rng.choice(["5548R50598", "356103", "ZR520"]),
+                   firmware=rng.choice(["5.22", "Nav 1.30", "9.20", "unknown", "4.17 Sig 0.00"]), date_from=a, date_to=b) for (a, b) in periods]
+        ecc = EccHistory()
+        for (a, b) in periods:
+            if rng.random() < 0.8:
+                e = NS(up=rng.choice([0.0, 0.0054, round(rng.uniform(0, 9), 4)]), east=rng.choice([0.0, round(rng.uniform(-9, 9), 4)]),
+                       north=rng.choice([0.0, round(rng.uniform(-9, 9), 4)]))
+                e.dpos = (e.east, e.north, e.up)
+                ecc[a] = e
+        si[k] = {"site_coord": scl, "antenna": ants, "receiver": rcvs, "eccentricity": ecc}
+    return si
+
+
+GAMIT_LINES: Dict[str, int] = {}
+
+
+def case_gamit_apr(run: Run, rng):
+    ctx = run.ctx
+    drv = ctx.driver
+    si = gen_gamit_site_info(rng, rng.choice([1, 2, 5, 12]))
+    ref_frame = rng.choice(["IGb14", "IGS20"])
+    case = {"writer": "gamit_apr_eq", "stations": {k: [[sc.pos, sc.vel, str(sc.date_from)] for sc in v["site_coord"]] for k, v in si.items()}}
+    ctx.case(case, nontrivial=True)
+    ctx.count("gamit_apr_eq")
+    eq_path = run.path("gamit_eq")
+    text = run.write("gamit_apr_eq", {"site_info": si}, case, path_key="apr_path", eq_path=eq_path, ref_frame=ref_frame)
+    if text.startswith("!!"):
+        ctx.violate("gamit_apr_eq:raises", f"gamit_apr_eq raised: {text[:160]}", case)
+        return
+    apr = text.splitlines(keepends=True)[3:]
+    eq = eq_path.read_text().splitlines(keepends=True)
+    nz = lambda v: float("nan") if not v else v  # `x or np.nan` in the writer: a zero is written as nan
+    want_apr, want_eq, truth = [], [], []
+    for sta, v in si.items():
+        for num, sc in enumerate(v["site_coord"], 1):
+            point = "GPS" if num == 1 else f"{num}PS" if num < 10 else f"{num}S"
+            ident = f"{sc.station.upper()}_{point}"
+            vals = {"ident": sval(ident), "x": val(nz(sc.pos[0])), "y": val(nz(sc.pos[1])), "z": val(nz(sc.pos[2])),
+                    "vx": val(nz(sc.vel[0])), "vy": val(nz(sc.vel[1])), "vz": val(nz(sc.vel[2])),
+                    "epoch": val(sc.ref_epoch.decimalyear if sc.ref_epoch else 0.0),
+                    "x_sig": val(nz(sc.pos_sigma[0])), "y_sig": val(nz(sc.pos_sigma[1])), "z_sig": val(nz(sc.pos_sigma[2])),
+                    "vx_sig": val(nz(sc.vel_sigma[0])), "vy_sig": val(nz(sc.vel_sigma[1])), "vz_sig": val(nz(sc.vel_sigma[2])),
+                    "comment": sval(f"{sc.system} from {sc.source} (itrf2014)")}
+            env = ";".join(f"{k}={x}" for k, x in vals.items())
+            want_apr.append((env, ident, sc))
+            want_eq.append(";".join(f"{k}={x}" for k, x in {"station.upper()": sval(sta.upper()), "ident": sval(ident),
+                                                               "start": sval(sc.date_from.strftime("%Y %m %d %H %M")),
+                                                               "end": sval(sc.date_to.strftime("%Y %m %d %H %M"))}.items()))
+    a1 = drv.ask([f"c17 row gamit_apr_eq {GAMIT_LINES['apr1']} {e}" for e, _, _ in want_apr])
+    a2 = drv.ask([f"c17 row gamit_apr_eq {GAMIT_LINES['apr2']} {e}" for e, _, _ in want_apr])
+    a3 = drv.ask([f"c17 row gamit_apr_eq {GAMIT_LINES['eq']} {e}" for e in want_eq])
+    model_apr = [None if "err" in (x, y) else bytes.fromhex(x).decode() + bytes.fromhex(y).decode() for x, y in zip(a1, a2)]
+    model_eq = [None if x == "err" else bytes.fromhex(x).decode() for x in a3]
+    if model_apr != apr:
+        bad = next((j for j, (a, b) in enumerate(zip(model_apr, apr)) if a != b), None)
+        ctx.disagree("gamit_apr_eq apr lines", {**case, "first_bad": bad}, model_apr[bad or 0 : (bad or 0) + 1], apr[bad or 0 : (bad or 0) + 1])
+    if model_eq != eq:
+        bad = next((j for j, (a, b) in enumerate(zip(model_eq, eq)) if a != b), None)
+        ctx.disagree("gamit_apr_eq eq lines", {**case, "first_bad": bad}, model_eq[bad or 0 : (bad or 0) + 1], eq[bad or 0 : (bad or 0) + 1])
+    # ---- oracle (no parser in the library): blank-separated fields, as GLOBK reads the apr file
+    if len(apr) != len(want_apr) or len(eq) != len(want_apr):
+        ctx.violate("gamit_apr_eq:row-count", f"{len(want_apr)} coordinate entries, {len(apr)} apr lines, {len(eq)} eq lines", case)
+        return
+    for l, le, (_, ident, sc) in zip(apr, eq, want_apr):
+        t = l.split()
+        nums = [nz(sc.pos[0]), nz(sc.pos[1]), nz(sc.pos[2]), nz(sc.vel[0]), nz(sc.vel[1]), nz(sc.vel[2])]
+        sig = [nz(x) for x in list(sc.pos_sigma) + list(sc.vel_sigma)]
+        ok = len(t) >= 14 and t[0] == ident
+        ok = ok and all(near(float(a), b, 5) for a, b in zip(t[1:7], nums)) and all(near(float(a), b, 5) for a, b in zip(t[8:14], sig))
+        ok = ok and near(float(t[7]), sc.ref_epoch.decimalyear if sc.ref_epoch else 0.0, 1)
+        te = le.split()
+        ok = ok and te[:3] == ["rename", sc.station.upper(), ident] and " ".join(te[3:8]) == sc.date_from.strftime("%Y %m %d %H %M") \
+            and " ".join(te[8:13]) == sc.date_to.strftime("%Y %m %d %H %M")
+        if not ok:
+            ctx.violate("gamit_apr_eq:values", f"{ident}: wrote pos {sc.pos} vel {sc.vel} as {l.strip()[:150]!r} / {le.strip()!r}", case)
+            return
+
+
+def case_gamit_sta_gipsyx(run: Run, rng):
+    ctx = run.ctx
+    drv = ctx.driver
+    # ---- GAMIT station.info
+    si = gen_gamit_site_info(rng, rng.choice([1, 2, 5]))
+    case = {"writer": "gamit_station_info", "stations": {k: [str(a.date_from) for a in v["antenna"]] for k, v in si.items()}}
+    ctx.case(case, nontrivial=True)
+    ctx.count("gamit_station_info")
+    text = run.write("gamit_station_info", {"site_info": si}, case)
+    if text.startswith("!!"):
+        ctx.violate("gamit_station_info:raises", f"gamit_station_info raised: {text[:160]}", case)
+    else:
+        rows = text.splitlines()[3:]
+        bad = [l for l in rows if drv.ask1(f"c17 conforms gamit_station_info {GAMIT_LINES['sta']} {hexs(l + chr(10))}") != "1"]
+        ctx.count("gamit-sta-lines-checked", len(rows))
+        if bad:
+            ctx.disagree("gamit_station_info lines vs regenerated layout", case, "conforms", bad[:2])
+        want = sum(len(v["antenna"]) for v in si.values())
+        got_sta = [l.split()[0].lower() for l in rows]
+        if len(rows) != want or sorted(set(got_sta)) != sorted(si):
+            ctx.violate("gamit_station_info:row-count", f"{want} equipment periods of {sorted(si)}, {len(rows)} lines for {sorted(set(got_sta))}", case)
+        else:
+            it = iter(rows)
+            for k, v in si.items():
+                for a, r in zip(v["antenna"], v["receiver"]):
+                    l = next(it)
+                    e = v["eccentricity"].get(a.date_from) or v["eccentricity"].get(a.date_to)
+                    h, no, ea = (e.up, e.north, e.east) if e else (0, 0, 0)
+                    # fixed columns of the GAMIT format: height, north, east
+                    t = l.split("  ")
+                    nums = [x for x in re.findall(r"(?<![\w.])-?\d+\.\d{4}(?![\w.])", l)]
+                    if a.date_from.strftime("%Y %j %H %M %S") not in l or a.type not in l or r.type not in l or len(nums) < 3 or \
+                            not (near(float(nums[0]), h, 4) and near(float(nums[1]), no, 4) and near(float(nums[2]), ea, 4)):
+                        ctx.violate("gamit_station_info:values", f"{k} from {a.date_from}: height/north/east {(h, no, ea)} {a.type} {r.type} written as {l.strip()[:170]!r}", case)
+                        return
+    # ---- GipsyX site information (on the site-information stand-ins of the Bernese writers)
+    si2 = gen_site_info(rng, rng.choice([1, 2, 4]))
+    for d in si2.values():
+        d["identifier"].country = d["identifier"].country_code
+        if "last" in d["site_coord"]:
+            d["site_coord"] = NS(history={})  # STATE lines have `e` cells, which the cell model does not cover
+        else:
+            d["site_coord"] = NS(history={})
+        for (a, b), o in d["eccentricity"].history.items():
+            o.station = "xxxx"
+        for (a, b), o in d["antenna"].history.items():
+            o.station = "xxxx"
+    case2 = {"writer": "gipsyx_site_info", "stations": sorted(si2)}
+    ctx.case(case2, nontrivial=True)
+    ctx.count("gipsyx_site_info")
+    text = run.write("gipsyx_site_info", {"site_info": si2}, case2)
+    if text.startswith("!!"):
+        ctx.violate("gipsyx_site_info:raises", f"gipsyx_site_info raised: {text[:160]}", case2)
+        return
+    lines = text.splitlines()[1:]
+    ids = [l for l in lines if l[6:10] == "ID  "]
+    rxs = [l for l in lines if l[6:13] == "RX     "]
+    ants = [l for l in lines if l[6:13] == "ANT    "]
+    bad = [l for l in ids if drv.ask1(f"c17 conforms gipsyx_site_info {GAMIT_LINES['gx_id']} {hexs(l + chr(10))}") != "1"]
+    bad += [l for l in rxs if drv.ask1(f"c17 conforms gipsyx_site_info {GAMIT_LINES['gx_rx']} {hexs(l + chr(10))}") != "1"]
+    ctx.count("gipsyx-lines-checked", len(ids) + len(rxs))
+    if bad:
+        ctx.disagree("gipsyx_site_info lines vs regenerated layout", case2, "conforms", bad[:2])
+    want_rx = sum(len(d["receiver"].history) for d in si2.values())
+    want_ant = sum(len(d["antenna"].history) for d in si2.values())
+    if len(ids) != len(si2) or len(rxs) != want_rx or len(ants) != want_ant or len(lines) != len(ids) + len(rxs) + len(ants):
+        ctx.violate("gipsyx_site_info:row-count", f"{len(si2)} stations / {want_rx} receiver / {want_ant} antenna periods, written "
+                    f"{len(ids)} ID, {len(rxs)} RX, {len(ants)} ANT of {len(lines)} lines", case2)
+        return
+    for k in sorted(si2):
+        d = si2[k]
+        mine = [l for l in lines if l[:6].strip().lower() == k]
+        for (a, b), rcv in d["receiver"].history.items():
+            if not any(l[6:13] == "RX     " and l[13:32] == a.strftime("%Y-%m-%d %H:%M:%S") and l[34:].startswith(rcv.type) and
+                       l.rstrip().endswith(f"# {rcv.serial_number} {rcv.firmware}") for l in mine):
+                ctx.violate("gipsyx_site_info:values", f"{k}: receiver {rcv.type} from {a} has no RX line", case2)
+                return
+        for (a, b), ant in d["antenna"].history.items():
+            ecc = d["eccentricity"].history[(a, b)]
+            hit = [l for l in mine if l[6:13] == "ANT    " and l[13:32] == a.strftime("%Y-%m-%d %H:%M:%S")]
+            ok = len(hit) == 1 and hit[0][34:].startswith(f"{ant.type} {ant.radome_type or 'NONE'}")
+            if ok:
+                nums = re.findall(r"-?\d\.\d{6}e[+-]\d\d", hit[0])
+                ok = len(nums) == 3 and all(abs(float(x) - y) <= 5e-7 * max(1.0, abs(y)) for x, y in zip(nums, (ecc.east, ecc.north, ecc.up)))
+            if not ok:
+                ctx.violate("gipsyx_site_info:values", f"{k}: antenna {ant.type} from {a} with eccentricity {(ecc.east, ecc.north, ecc.up)} written as {hit[:1]}", case2)
+                return
+
+
+# -------------------------------------------------------------------------------------------------
 # CSV
 
 
-def case_csv(run: Run, rng):
-    ctx = run.ctx
-    drv = ctx.driver
-    from midgard import parsers
+def gen_csv_inputs(rng):
     from midgard.data import dataset
 
     n = rng.choice([1, 2, 5, 40, 400]) if rng.random() < 0.4 else rng.randint(1, 9)
@@ -683,6 +1057,16 @@ def case_csv(run: Run, rng):
     fields["height"] = rng.choice([".4f", ".1f"])
     if rng.random() < 0.5:
         fields["nobs"] = rng.choice([".0f", "d", ""])
+    return d, fields, n, times
+
+
+def case_csv(run: Run, rng):
+    ctx = run.ctx
+    drv = ctx.driver
+    from midgard import parsers
+
+    run.regen = ("csv", rng.getstate())
+    d, fields, n, times = gen_csv_inputs(rng)
     case = {"writer": "csv_", "num_obs": n, "fields": dict(fields), "times": [str(t) for t in times[:8]],
             "amplitude": np.asarray(d.amplitude)[:8].tolist(), "height": np.asarray(d.height)[:8].tolist()}
     ctx.case(case, nontrivial=True)
@@ -795,6 +1179,12 @@ def run(ctx: Ctx, prove: bool = True):
     global TMS_REF_LINE
     tms_ref = [r["line"] for r in info["rows"] if r["writer"] == "sinex_tms" and any(c.get("name") == "ref_pos.trs.x" for c in r["cells"])]
     TMS_REF_LINE = tms_ref[0] if tms_ref else 0
+    def line_with(writer, cell):
+        ls = [r["line"] for r in info["rows"] if r["writer"] == writer and any(c.get("name") == cell for c in r["cells"])]
+        return ls[0] if ls else 0
+    GAMIT_LINES.update({"apr1": line_with("gamit_apr_eq", "vx"), "apr2": line_with("gamit_apr_eq", "x_sig"),
+                        "eq": line_with("gamit_apr_eq", "start"), "sta": line_with("gamit_station_info", "height_code"),
+                        "gx_id": line_with("gipsyx_site_info", "domes"), "gx_rx": line_with("gipsyx_site_info", "type_")})
     for k, sp in info["data_types"]:
         DT_PREC[k] = sp["prec"] if sp["prec"] >= 0 else None
     ctx.extra["rows_extracted"] = len(info["rows"])
@@ -803,23 +1193,30 @@ def run(ctx: Ctx, prove: bool = True):
                     "floating-point: the model formats the exact value of the double the writer was given (ties to even); "
                     "read-back values are compared to half a unit of the printed precision",
                     "site-information inputs are duck-typed stand-ins (SimpleNamespace) with the attributes the writers read",
-                    "gamit_apr_eq, gamit_station_info, gipsyx_site_info: layouts extracted, writers not executed"]
+                    "gamit_apr_eq, gamit_station_info, gipsyx_site_info have no matching parser in the library: their files are "
+                    "compared with the model (apr/eq lines byte for byte) or the regenerated layouts and read off the text"]
     ctx.assumptions += ["identifiers are ASCII; station keys have 4 characters (the width of the formats)",
                         "clock-dependent header lines are not compared"]
-    ctx.rule = ("per case one writer call on generated inputs: 1-60 stations (CRD/VEL/CLU/ABB/STA: random 4-character keys incl. "
-                "near-duplicates, coordinates typical/extreme (+-9 999 999.9999)/tiny/rounding ties/NaN, missing coordinates, "
-                "missing/empty/9-character DOMES, 1-3 equipment periods) or 1-400 epochs (SINEX TMS/CSV: unsorted and repeated "
-                "epochs, optional sigma/correlation/ENU/GNSS columns, NaN, large displacements, optional trend estimates); a "
-                "case is distinct by its canonical inputs")
+    ctx.rule = ("per case one writer on generated inputs, called twice (same input) and for a sample a third time in a fresh "
+                "interpreter: 1-60 stations (CRD/VEL/CLU/ABB/STA/GAMIT/GipsyX: random 4-character keys incl. near-duplicates, "
+                "coordinates typical/extreme (+-9 999 999.9999)/tiny/rounding ties/NaN, missing coordinates, missing/empty/"
+                "9-character DOMES, 1-4 equipment periods; the same station codes again with updated site information) or 1-400 "
+                "epochs (SINEX TMS/CSV: 1-3 stations interleaved in one dataset, obs.* or flat layout, every station written from "
+                "the same object; unsorted and repeated epochs, optional sigma/correlation/ENU/GNSS columns, NaN, large "
+                "displacements, optional trend estimates); a case is distinct by its canonical inputs")
     tmp = Path(tempfile.mkdtemp(prefix="c17-"))
     try:
         r = Run(ctx, tmp)
         r.last_path = None
-        n = ctx.budget(900, 15000)
+        n = ctx.budget(640, 9000)
         dft = info["data_field_types"]
         for i in range(n):
             k = i % 6
-            if k == 0:
+            if i % 12 == 10:
+                case_gamit_apr(r, rng)
+            elif i % 12 == 11:
+                case_gamit_sta_gipsyx(r, rng)
+            elif k == 0:
                 case_crd(r, rng, vel=False)
             elif k == 1:
                 case_crd(r, rng, vel=True)
